@@ -178,6 +178,9 @@ impl IndexRead {
 
 /// If an entry read from an index holds values that can't be used, say what is wrong.
 fn invalid_entry(entry: &IndexEntry) -> Option<&'static str> {
+    if !Apath::is_valid(&entry.apath) {
+        return Some("invalid apath");
+    }
     if entry.kind == Kind::Unknown {
         return Some("unknown kind");
     }
